@@ -298,7 +298,8 @@ def mask_cases(ctx, tier, flags=True, dup=False, include_posonly=False):
             if all(x[2] is not None or x[1] not in (PO, PK) for x in p[k:]):
                 p = p[:k] + (('e', PK, '5', None),) + p[k:]
         big.append(p)
-    plan.append((big, range(len(big)), False))
+    # (in the quick tier before the larger seeded sample, so that a tight budget cuts that one)
+    plan.insert(1 if tier == 'quick' else len(plan), (big, range(len(big)), False))
     idx = 0
     for space, indexes, exhaustive in plan:
         done = True
